@@ -997,7 +997,7 @@ class Patron(object):
 
             try:
                 host = aioing.normalizeHost(hostname)
-            except socket.error as ex:  # host of Location does not resolve
+            except (socket.error, UnicodeError) as ex:  # host of Location does not resolve or is no host name
                 raise httping.InvalidURL("Invalid redirect location '{0}': {1}".format(location, ex))
             ha = (host, port)
             if ha != self.connector.ha or scheme != self.requester.scheme:
